@@ -399,6 +399,45 @@ RelaxedOk(km, out, run) ==
        /\ ~Checkable(km, ei.k, ei.sets[m[2]])
 
 (***************************************************************************)
+(* C06, first sentence, for template ids whose definition CHANGED: the     *)
+(* set of <<protocol, id>> that a call redefines - a template record for   *)
+(* an id that already had a different governing definition (in the caches  *)
+(* before the call, or from an earlier set of the same call).  Computed    *)
+(* from the reference run's sets; Trace.tla accumulates it per parser.     *)
+(* When a data set of such an id, in a conformant packet, is reported with *)
+(* a structure other than the one its latest definition gives, it was not  *)
+(* decoded with the most recent template (it may have been decoded with a  *)
+(* blend of the old and the new one: a memoised record size, say).         *)
+(***************************************************************************)
+GovDefOf(pr, c, id) ==
+  LET k == Governing(c, id, "recency") IN IF k = "none" THEN <<"none">> ELSE <<k, StripDef(pr, k, c[k][id])>>
+RunSets(eout) ==
+  Flatten([i \in 1..Len(eout) |->
+             IF eout[i].k \in {"v9", "ipfix"} \/ (eout[i].k = "err" /\ eout[i].ver = 9)
+               THEN [q \in 1..Len(eout[i].sets) |-> [pr |-> IF eout[i].k = "ipfix" THEN "ipfix" ELSE "v9", st |-> eout[i].sets[q]]]
+               ELSE <<>>])
+RedefRecStep(pre, pr, kd, ac, r) ==
+  LET key == <<pr, r.id>>
+      old == IF key \in DOMAIN ac.cur THEN ac.cur[key] ELSE GovDefOf(pr, pre[pr], r.id)
+      new == <<kd, StripDef(pr, kd, r)>> IN
+  [cur |-> MapPut(ac.cur, key, new),
+   red |-> IF old # <<"none">> /\ old # new THEN ac.red \cup {key} ELSE ac.red]
+Redefined(pre, eout) ==
+  LET step(ac, x) ==
+        IF x.st.k \in {"tmpl", "otmpl"}
+          THEN LET kd == IF x.st.k = "tmpl" THEN "data" ELSE "opts" IN
+               FoldLeft(LAMBDA a, r : RedefRecStep(pre, x.pr, kd, a, r), ac, x.st.recs)
+          ELSE ac
+  IN FoldLeft(step, [cur |-> EmptyMap, red |-> {}], RunSets(eout)).red
+RedefFindings(km, out, ideal, redefs) ==
+  LET m == FirstMismatch(km, out, ideal.out) IN
+  IF m[1] # 0 /\ m[1] <= Len(ideal.out) /\ m[2] # 0 /\ ideal.out[m[1]].k \in {"v9", "ipfix"}
+     /\ m[2] <= Len(ideal.out[m[1]].sets) /\ ideal.out[m[1]].sets[m[2]].k \in {"data", "odata"}
+     /\ <<ideal.out[m[1]].k, ideal.out[m[1]].sets[m[2]].id>> \in redefs
+    THEN {<<"C06", ideal.out[m[1]].k \o ".data", "redefined-id", "not-decoded-by-latest-definition">>}
+    ELSE {}
+
+(***************************************************************************)
 (* Judge one observed call.                                                *)
 (*   buf, allow           the input and the allowed-version set            *)
 (*   preO, last           the parser's caches before the call (observed    *)
@@ -407,6 +446,7 @@ RelaxedOk(km, out, run) ==
 (***************************************************************************)
 Judge(buf, allow, preO, last, out, postO) ==
   LET km    == KmOfTm(preO) \cup KmOfTm(postO) \cup KmOfOut(out)
+      redef0 == IF "redef" \in DOMAIN last THEN last.redef ELSE {}
       pre   == ObsTm(preO, last)
       post  == ObsTm(postO, last)
       acct  == Accounting(buf, out, allow)
@@ -435,11 +475,13 @@ Judge(buf, allow, preO, last, out, postO) ==
               IF matched /\ n > 0 /\ run.out[n].k = "err" /\ run.out[n].why \in CutWhy /\ run.out[n].ver \in {5, 7, 10}
                    /\ \E pr \in Protos : ~GovEq(pr, post[pr], run.tm[pr])
                 THEN {<<"C14", "trunc", "cache", ToString(run.out[n].ver)>>} ELSE {})
+        \* unexplained structure on a conformant buffer, at a data set of an id that was redefined (C06)
+        \cup (IF ~matched /\ ri = 0 /\ conf THEN RedefFindings(km, out, ideal, redef0 \cup Redefined(pre, ideal.out)) ELSE {})
         \* unexplained structure on a conformant buffer: the caches must still be the reference's
         \cup (IF ~matched /\ ri = 0 /\ conf
               THEN UNION {IF GovEq(pr, post[pr], ideal.tm[pr]) THEN {} ELSE {<<"C06", "cache", "mismatch", pr>>} : pr \in Protos}
               ELSE {}),
       matched |-> matched, conf |-> conf, dev |-> IF matched \/ ri # 0 THEN run.used ELSE {"?"},
-      last |-> [v9 |-> run.tm.v9.last, ipfix |-> run.tm.ipfix.last],
+      last |-> [v9 |-> run.tm.v9.last, ipfix |-> run.tm.ipfix.last, redef |-> redef0 \cup Redefined(pre, run.out)],
       run |-> run, km |-> km]
 =============================================================================
